@@ -254,6 +254,10 @@ def regression_cases():
         body.append("int kw_fn_%d(int %s);" % (k, w))
         body.append("extern int %s_;" % w if w in ("self", "Self", "crate", "super") else "")
     out.append(("kw-fields-params", "h", "\n".join(body) + "\n", []))
+    out.append(("kw-bitfields", "h", "struct kw_bf { %s };\n" % " ".join("unsigned %s : 1;" % w for w in c_ok) +
+                "struct kw_bf2 { %s };\n" % " ".join("int %s : 3; char pad_%d;" % (w, k) for k, w in enumerate(c_ok)), []))
+    out.append(("kw-union-members", "h", "union kw_u { %s };\n" % " ".join("int %s;" % w for w in c_ok), []))
+    out.append(("kw-fnptr-params", "h", "\n".join("typedef int (*kw_fp_%d)(int %s, char %s_);" % (k, w, w) for k, w in enumerate(c_ok)) + "\n", []))
     out.append(("kw-functions", "h", "\n".join("int %s(int a);" % w for w in c_ok if w not in ("Self",)) + "\n", []))
     out.append(("kw-variables", "h", "\n".join("extern int %s;" % w for w in c_ok) + "\n", []))
     out.append(("kw-types", "h", "\n".join("struct %s { int x; }; typedef struct %s %s_t;" % (w, w, w) for w in c_ok) + "\n", []))
